@@ -210,8 +210,12 @@ def run(ctx):
             raise ToolError("RegistryTrace failed:\n" + rt["output"][-3000:])
         else:
             ntrace_ok += len(part)
+    # ---- 4. beyond the sequential property: the same specification under concurrent register / unregister / gather / updates
+    import regconc
+    cs = regconc.run(ctx, exe)
+    ctx.cov["concurrent_registry"] = cs
     ctx.cov.update({
-        "traces_validated_against_impl": nconf + ntrace_ok,
+        "traces_validated_against_impl": nconf + ntrace_ok + cs["conforming"] + cs["histories"],
         "behaviours_replayed": len(behaviours), "behaviours_conforming": nconf,
         "recorded_traces": len(plans), "recorded_trace_events": events_total, "recorded_traces_accepted": ntrace_ok,
         "samples": [{"behaviour": behaviours[len(behaviours) // 2]}, {"trace_prefix": plans[0][3][:8] if len(plans[0]) == 4 else []}],
@@ -258,6 +262,9 @@ def replay(path):
     ctx = Ctx("C06_replay", "quick", 0, LEVEL)
     exe = build_harness()
     univ = rp["universe"]
+    if rp["kind"] == "concurrent":
+        import regconc
+        return regconc.replay(rp)
     if rp["kind"] == "history":
         res = run_api(ctx, exe, [{"id": 0, "calls": rp["calls"]}], "replay")[0]
         for c, r in zip(rp["calls"], res):
